@@ -34,11 +34,12 @@ type c08Roles struct {
 	savers      map[*ssa.Function]bool // saveIndex role: projects the resolver into s.index.Manifests and writes the file
 	indexWriter map[*ssa.Function]bool // writeIndexFile role: marshals s.index and writes s.indexPath
 	dirty       map[*ssa.Function]bool // unexported helpers that mutate the tag map and return nil without saving
+	autoSavers  map[*ssa.Function]bool // helpers that do nothing but "save if AutoSaveIndex": a nil error means saved or AutoSaveIndex off
 }
 
 // c08FindRoles resolves the unexported helpers of oci.Store by what they do.
 func c08FindRoles(c *Ctx, rule string) *c08Roles {
-	r := &c08Roles{store: c.P.Named(c08Pkg, "Store"), savers: map[*ssa.Function]bool{}, indexWriter: map[*ssa.Function]bool{}, dirty: map[*ssa.Function]bool{}}
+	r := &c08Roles{store: c.P.Named(c08Pkg, "Store"), savers: map[*ssa.Function]bool{}, indexWriter: map[*ssa.Function]bool{}, dirty: map[*ssa.Function]bool{}, autoSavers: map[*ssa.Function]bool{}}
 	if r.store == nil {
 		c.LostAnchor(rule, "~/content/oci.Store")
 		return nil
@@ -84,6 +85,23 @@ func c08FindRoles(c *Ctx, rule string) *c08Roles {
 	if len(r.indexWriter) == 0 {
 		c.LostAnchor(rule, "writeIndexFile role (method of oci.Store that writes s.indexPath)")
 		return nil
+	}
+	// `autoSaveIndex()`-style helpers (fixpoint: a wrapper of such a helper is one too): no change of the
+	// tag map inside, and every nil-error return has passed a successful save or the AutoSaveIndex==false edge
+	for changed := true; changed; {
+		changed = false
+		for _, f := range c.P.FuncsOfPkg(c08Pkg) {
+			if r.savers[f] || r.autoSavers[f] || r.indexWriter[f] || ErrResultIndex(f.Signature) < 0 || len(c08SaveCalls(f, r)) == 0 || len(c08Mutations(f, r)) > 0 {
+				continue
+			}
+			_, off := c08AutoSaveEdges(f, r.store)
+			ct := newCut().Edges(off...)
+			c08SaveSuccessCut(f, r, ct)
+			if c08NilReturnFrom(f.Blocks[0], 0, ct) == nil {
+				r.autoSavers[f] = true
+				changed = true
+			}
+		}
 	}
 	return r
 }
@@ -171,7 +189,7 @@ func c08AutoSaveEdges(fn *ssa.Function, store *types.Named) (on, off []Edge) {
 func c08SaveCalls(fn *ssa.Function, r *c08Roles) []ssa.CallInstruction {
 	var out []ssa.CallInstruction
 	for _, call := range Calls(fn, func(string) bool { return true }) {
-		if g := StaticCallee(call); g != nil && r.savers[g] {
+		if g := StaticCallee(call); g != nil && (r.savers[g] || r.autoSavers[g]) {
 			if _, isDefer := call.(*ssa.Defer); !isDefer {
 				out = append(out, call)
 			}
@@ -256,6 +274,24 @@ func c08InfeasibleAfter(M ssa.Instruction, r *c08Roles) []Edge {
 			}
 		}
 	}
+	// a counter incremented after M (`untagged++ … if untagged > 0`)
+	for _, i := range Ifs(fn) {
+		cond, t, f := ifEdges(i)
+		bo, ok := cond.(*ssa.BinOp)
+		if !ok {
+			continue
+		}
+		k, isC := constInt(bo.Y)
+		if !isC || !c08CounterPositiveAfter(M, bo.X, i) {
+			continue
+		}
+		switch {
+		case bo.Op == token.GTR && k == 0, bo.Op == token.NEQ && k == 0, bo.Op == token.GEQ && k == 1:
+			out = append(out, f)
+		case bo.Op == token.EQL && k == 0, bo.Op == token.LSS && k == 1, bo.Op == token.LEQ && k == 0:
+			out = append(out, t)
+		}
+	}
 	// M is a call of a helper that reports, in a bool result, whether it changed the
 	// tag map (`untagged := s.untagAll(target)`): relative to "a change happened at
 	// M" the result is true, so the edges on which it is false are infeasible
@@ -312,6 +348,69 @@ func c08BoolKnownAfter(M ssa.Instruction, v ssa.Value, use ssa.Instruction) (val
 		return false, false
 	}
 	return vals[true], true
+}
+
+// c08CounterPositiveAfter: v (tested at use) is a counter that starts at a
+// constant >= 0, is only ever incremented, and is incremented (and re-read) on
+// every path from M to the use: it is >= 1 there.
+func c08CounterPositiveAfter(M ssa.Instruction, v ssa.Value, use ssa.Instruction) bool {
+	phi, ok := v.(*ssa.Phi)
+	if !ok {
+		return false
+	}
+	if b, isBasic := phi.Type().Underlying().(*types.Basic); !isBasic || b.Info()&types.IsInteger == 0 {
+		return false
+	}
+	// the closure of phis / increments feeding the counter: monotone, non-negative
+	member := map[ssa.Value]bool{}
+	var incs []ssa.Instruction
+	var walk func(x ssa.Value, d int) bool
+	walk = func(x ssa.Value, d int) bool {
+		if member[x] {
+			return true
+		}
+		if d > 6 {
+			return false
+		}
+		switch u := x.(type) {
+		case *ssa.Const:
+			k, isC := constInt(u)
+			return isC && k >= 0
+		case *ssa.Phi:
+			member[u] = true
+			for _, e := range u.Edges {
+				if !walk(e, d+1) {
+					return false
+				}
+			}
+			return true
+		case *ssa.BinOp:
+			c, isC := constInt(u.Y)
+			if u.Op != token.ADD || !isC || c < 0 {
+				return false
+			}
+			member[u] = true
+			if c >= 1 {
+				incs = append(incs, u)
+			}
+			return walk(u.X, d+1)
+		}
+		return false
+	}
+	if !walk(phi, 0) || len(incs) == 0 {
+		return false
+	}
+	// every path from M to the use increments …
+	if !MustPassBetween(M, use, newCut().Instr(incs...)) {
+		return false
+	}
+	// … and the tested value is re-read after the increment
+	for _, inc := range incs {
+		if reach(inc.Block(), instrIndex(inc)+1, use, newCut().Instr(phi)) {
+			return false
+		}
+	}
+	return true
 }
 
 // c08ChangeImpliesTrue: whenever g changes the tag map, its bool result idx is
